@@ -30,7 +30,7 @@ CHECKS = {
  "C06": ("mergex+bytex", "DESIGN.md §4 E2/E3, §5 C06",
    "exhaustive enumeration of ordered pairs of values x spellings, and of all short byte strings, vs. reference structural equality",
    "Equal is compared with reference structural equality on all ordered pairs of the value family, each value also reordered, whitespace-padded and \\u-escaped (null roots, nulls in arrays, array vs null included); agreement with an equivalence relation on the whole set yields reflexivity/symmetry/transitivity there. Every string over 16 symbols up to length 4/5 against {itself, {}, [], {\"a\":1}, null}: malformed => false.",
-   T+"Numerically equal but differently spelled numbers are outside the stated domain (DontCare). Size sweeps (DESIGN section 3): the same clusters in every spelling; float64 neighbours; on 31 texts with repeated member names (no value oracle) reflexivity, symmetry and transitivity are checked directly over all pairs and triples."),
+   T+"Numerically equal but differently spelled numbers are outside the stated domain (DontCare). Size sweeps (DESIGN section 3): the same clusters in every spelling; float64 neighbours; on 31 texts with repeated member names (no value oracle) reflexivity, symmetry and transitivity are checked directly over all pairs and triples. Padding sweep: a value against itself padded with 0..100000 blanks in five ways."),
  "C07": ("mergex", "DESIGN.md §4 E2, §5 C07",
    "exhaustive enumeration of triples (D,P1,P2) restricted by the compatibility predicate; composition law through the reference merge and through the library's own",
    "For every pair of object patches of the family satisfying the stated compatibility condition (computed by the reference) MergeMergePatches is run once and the result applied, with the RFC reference, to every document of the document family: it must equal applying P1 then P2. The same law is checked through the library's MergePatch on a sub-family; non-object P2 must come back verbatim.",
@@ -62,11 +62,11 @@ CHECKS = {
  "C16": ("scanx+bytex", "DESIGN.md §4 E3, §5 C16",
    "reachability over the synchronous product of the real scanner automaton with a reference pushdown recogniser (all 256 bytes per state), plus exhaustive short strings into codec functions and entry points",
    "The library's private scanner is cloned and single-stepped (observation file injected by overlay) in lock-step with a reference recogniser; BFS over the product with stacks to depth 4 compares end-of-input acceptance in every reachable state: language equality for inputs of every length at that nesting. All strings over 33 byte classes up to length 5/6 whose proper prefixes are viable test Valid/Compact/Indent/Unmarshal/UnmarshalWithKeys; accepted strings (with whitespace around) and all 16-symbol strings up to 4/5 go to every public entry point; nesting at 10000/10001 levels.",
-   T+"Bytes >= 0x80 are treated as string characters without UTF-8 validation (the grammar applied to bytes, as the standard library does). Nesting between 5 and 9998 levels is covered by the stack-top-only argument, not by enumeration. Also: string literals of every length 0..130 and around 256/1024/4096 with one special byte at the start/middle/end into codec functions and entry points; and buffer histories - one caller buffer per size 16..70000 handed to each entry point well-formed, then overwritten in place with an ill-formed text of equal length, then well-formed again."),
+   T+"Bytes >= 0x80 are treated as string characters without UTF-8 validation (the grammar applied to bytes, as the standard library does). Nesting between 5 and 9998 levels is covered by the stack-top-only argument, not by enumeration. Also: string literals of every length 0..130 and around 256/1024/4096 with one special byte at the start/middle/end into codec functions and entry points; and buffer histories - one caller buffer per size 16..70000 handed to each entry point well-formed, then overwritten in place with an ill-formed text of equal length, then well-formed again. 760 number literals (sign x 4 integer parts x 5 fractions x 19 exponent spellings) and byte order marks / U+200B around every accepted text."),
  "C18": ("seqx", "DESIGN.md §4 E1, §5 C18",
    "C01's enumeration on the legacy root package (built as a module through an overlay go.mod), restricted to the stated domain",
    "Sequences the reference evaluates successfully (without add '' / copy from '') must succeed with a structurally equal document; sequences whose first inapplicable operation is a failed test, a remove/move of an absent target or an out-of-range index must fail with no document; other failures are outside the domain.",
-   T+"The legacy package's options are package variables; explored one setting per phase. Size sweeps as C01 (string documents depth 2, width/length documents depth 3), inside the legacy domain."),
+   T+"The legacy package's options are package variables; explored one setting per phase. Size sweeps as C01 (string documents depth 2, width/length documents depth 3), inside the legacy domain. Operations placed behind a failing remove / move and aimed at the location it named must leave the failure standing; prefix-name and twin documents."),
  "C19": ("mergex", "DESIGN.md §4 E2, §5 C19",
    "the merge engines on the legacy package within the stated domains",
    "Legacy MergePatch edges (object/array patches), CreateMergePatch pairs (float64-printable numbers), MergeMergePatches composition, Equal on object/array roots without escapes - all exhaustively over the same value families as the v5 checks.",
@@ -74,15 +74,15 @@ CHECKS = {
  "C09": ("histx", "DESIGN.md §4 E5, §5 C09",
    "explicit-state breadth-first search over call histories on the real code, with every sync.Pool answer and every map iteration order an explorer-owned choice; state = dump of all process-wide library state; oracle = outcome equals the solo outcome, inputs unchanged",
    "All histories of up to 3 calls (default pool answers and map orders) and of up to 2 calls with one deviation (thorough: 4/0, 3/1, 2/2) from a menu of 55 exported-API calls over ONE shared set of decoded Patch values and input buffers (successes, failures, malformed inputs, both packages), built against a shim of the sync package so that which pooled decoder/encoder/scanner object a Get returns (most recent, any other, or a fresh one) and the order of every map iteration are enumerated within a deviation budget. States are merged on a generic dump of every package-level variable of the library packages (incl. every private field of every recycled object); every transition is judged: same error text / same bytes (Apply, ApplyIndent, CreateMergePatch, Equal) / same JSON value as the call made alone in a brand-new process (one subprocess per menu entry), no shared buffer, Patch or ApplyOptions value changed, results returned earlier still hold their bytes, and a caller overwriting a returned slice does not change the next call.",
-   T+"Closure of the state space is not reached with the exact dump (recycled objects remember their last input), so the claim is bounded by depth; the dump omits slice capacity and elements beyond len. Only exported functions are driven. The menu shares ONE ApplyOptions value (limit 40, AllowMissingPathOnRemove on) between five calls incl. a failing move, and carries v5 and legacy patches with values beyond 1 KiB that later operations walk into. decodeBufferReuse: a patch decoded from a buffer the caller later refills with another patch must go on behaving as decoded (both packages). A second legacy patch with null entries is snapshot-compared. Cold histories restore every unexported pointer-free package-level variable of the library to its process-start value."),
+   T+"Closure of the state space is not reached with the exact dump (recycled objects remember their last input), so the claim is bounded by depth; the dump omits slice capacity and elements beyond len. Only exported functions are driven. The menu shares ONE ApplyOptions value (limit 40, AllowMissingPathOnRemove on) between five calls incl. a failing move, and carries v5 and legacy patches with values beyond 1 KiB that later operations walk into. decodeBufferReuse: a patch decoded from a buffer the caller later refills with another patch must go on behaving as decoded (both packages). A second legacy patch with null entries is snapshot-compared. Cold histories restore every unexported pointer-free package-level variable of the library to its process-start value. Error VALUES of earlier calls are kept and re-read after every later call; the Operation accessors run on the shared patches; a shared patch adds into an array slot, copies it and replaces it; shared inputs carry long member names with escapes."),
  "C10": ("schedx", "DESIGN.md §4 E6, §5 C10",
    "stateless depth-first exploration of every schedule of 2-3 goroutine harnesses up to a preemption bound under a controlled scheduler on the real code (sync shim + injected statement points), plus a free-running race-detector pass over the same bodies",
    "Every unordered pair of 11 exported-API calls (and 3-goroutine scenarios) on ONE shared Patch and shared input slices, with cold and warm type caches, is run under a cooperative scheduler that owns every sync.Pool/Map/WaitGroup operation of the codec (configuration A) and additionally every statement boundary of the functions touching them, an atomic, or a package-level variable some function writes (configuration B); all schedules within the preemption bound are enumerated (Pool.Get answers share the budget), each complete schedule judged: every call returns its solo outcome, inputs and Patch unchanged, no panic, no deadlock. Replays are deterministic (map iteration fixed at build time; the default schedule is run twice). The 'no data race' clause is decided by the Go race detector on the same bodies running freely over a mutex-guarded global pool (so goroutines really exchange pooled objects).",
-   T+"The race half is detection on executed accesses, not enumeration; it is reported separately in the evidence (race_pass). Standard-library internals are trusted. The legacy package is covered by the race half only. Cold scenarios restore every unexported pointer-free package-level variable of the library packages to its process-start value (lazily built tables, flags), so the window of a first-use initialisation is schedulable in every execution; the race pass ends with a cold-start sub-pass (each scenario as the first calls of a brand-new process). Scenarios include two calls on one patch, one 78 KB document and one options value differing only in the indent (<= 1 preemption)."),
+   T+"The race half is detection on executed accesses, not enumeration; it is reported separately in the evidence (race_pass). Standard-library internals are trusted. The legacy package is covered by the race half only. Cold scenarios restore every unexported pointer-free package-level variable of the library packages to its process-start value (lazily built tables, flags), so the window of a first-use initialisation is schedulable in every execution; the race pass ends with a cold-start sub-pass (each scenario as the first calls of a brand-new process). Scenarios include two calls on one patch, one 78 KB document and one options value differing only in the indent (<= 1 preemption). The free-running pass also runs six Equal calls on a 3000-deep document at once (limits are per call, not per process) - detection on executed runs, reported as such."),
  "C17": ("codecx", "DESIGN.md §4 E4, §5 C17",
    "bounded-exhaustive enumeration of JSON texts x spellings, of run-time generated Go types x values x texts, and of Decoder scripts x every split of the stream into reads, each compared with an independent reader or with encoding/json",
    "(1) Every value of the enumerated family in several spellings plus escape/number specials goes through all four Unmarshal entry points and back through Marshal/MarshalEscaped - on a brand-new codec state (pools emptied before each entry point) and on a recycled one - and must read back as the same value (literals, code points), report keys in document order, and Compact/Indent/HTMLEscape must equal independent implementations. (2) ~600 Go types built at run time (scalars, []byte, any, pointers, slices, arrays, maps, structs with every tag form, name collisions, embedding) x value domains: Marshal / MarshalIndent / MarshalEscaped / Encoder in 6 settings equal encoding/json byte for byte, and every text of a matching+mismatching set decodes into zero and pre-filled targets to encoding/json's value and error-ness. (3) All Decoder scripts up to length 3/4 over 8 streams under every split into <= 3 reads agree step by step with encoding/json.",
-   T+"Relative to the installed standard library; U+0008/U+000C spelling and the Number type are normalised as the property says; ASCII field names. Numeric types also decode per-kind boundary literals (min-1 .. max+1 of int8/uint16/int/uint64 ranges, float32/float64 overflow, underflow and rounding ties; bare, quoted, in arrays and members); pointer chains **T / ***T over the primitive kinds under every tag."),
+   T+"Relative to the installed standard library; U+0008/U+000C spelling and the Number type are normalised as the property says; ASCII field names. Numeric types also decode per-kind boundary literals (min-1 .. max+1 of int8/uint16/int/uint64 ranges, float32/float64 overflow, underflow and rounding ties; bare, quoted, in arrays and members); pointer chains **T / ***T over the primitive kinds under every tag. Key lists are checked into every string-keyed map type of the type domain; embedding shapes: diamonds with tails (by value and by pointer), three paths, shadowing, tagged vs plain at equal depth."),
  "C20": ("cmdx", "DESIGN.md §4 E7, §5 C20",
    "exhaustive enumeration of -p argument lists (order, repetition) over a patch-file menu x stdin documents, each run as a real process of the binary built from the working tree; byte-exact comparison with the library fold and value comparison with the reference fold",
    "Every list of 0..2 (thorough 3) patch files over a 12-file menu (valid non-commuting patches, one applicable only after another, failing test, malformed, unknown op, missing file, directory, empty, empty patch, root-replacing) x 6 stdin documents is executed with both command binaries (v5 cmd, legacy cmd). Success: stdout byte-identical to folding the library's Apply over the files in command-line order, exit 0, value equal to the reference fold. Any unreadable/undecodable/inapplicable patch: empty stdout, non-empty stderr, non-zero exit.",
